@@ -1,9 +1,700 @@
-//! C19 — not implemented yet.
-use crate::ctx::Ctx;
+//! C19 — cloud object JSONL round-trips; glob expansion follows the documented syntax.
+//!
+//! Strings travel as `x<hex of UTF-8>` (empty string = `x`), records as opaque tokens `r<hex of their JSON>`.
+//!
+//!   GLOB2RE x<pat>                  -> x<regex source>                 (hook: readers::verif::glob_to_regex)
+//!   GLOBPREFIX x<pat>               -> NONE | SOME x<prefix>           (hook: readers::verif::extract_prefix)
+//!   GLOBMATCH x<pat> x<key>...      -> OK x<key>... | ERR <kind>       (REAL expand_cloud_glob on FakeObjectIO)
+//!   GLOBREQ x<pat> x<key>...        -> same through expand_cloud_glob_required
+//!   GLOBALL x<pat> x<alphabet> <n>  -> OK <count> x<key>...            (store = ALL keys of length <= n)
+//!   CLOUDJSONL x<key> r...          -> W:<codec> R:OK r... | W:<codec> R:ERR
+//!                                      (write_cloud_jsonl_vec, sniff the stored bytes, read_cloud_jsonl_vec)
+//!   GLOBREAD x<pat> x<key>=r,r ...  -> OK r... | ERR <kind>            (write each object, read_cloud_jsonl_glob)
+//!
+//! Oracles (independent of the Lean model): expansion == keys accepted by a reference matcher written here
+//! from the documented syntax (`*` within a segment, `?` one character, `**` anything, other characters
+//! themselves), sorted; every accepted key starts with the listing prefix; read-back == written; the stored
+//! object carries the codec that the key's extension names; glob read == concatenation in sorted key order.
 
-pub fn run(cx: &mut Ctx) {
-    cx.notes.push("C19: harness not implemented".to_string());
+use crate::ctx::{Ctx, guarded, hex};
+use ironbeam::io::cloud::readers::{
+    expand_cloud_glob, expand_cloud_glob_required, read_cloud_jsonl_glob, read_cloud_jsonl_vec, verif,
+    write_cloud_jsonl_vec,
+};
+use ironbeam::io::cloud::{CloudResult, FakeObjectIO, ObjectIO, ObjectMetadata};
+use serde::{Deserialize, Serialize};
+use std::collections::BTreeSet;
+
+const B: &str = "bkt";
+
+fn xs(s: &str) -> String {
+    format!("x{}", hex(s.as_bytes()))
 }
 
-/// finite tables dumped from the running code (translator route); appended to Generated/Tables.lean
-pub fn tables(_out: &mut String) {}
+// ---------------------------------------------------------------------------------------------
+// reference matcher: the documented syntax, by dynamic programming over (pattern pos, key pos)
+// ---------------------------------------------------------------------------------------------
+fn ref_match(pat: &str, key: &str) -> bool {
+    let p: Vec<char> = pat.chars().collect();
+    let k: Vec<char> = key.chars().collect();
+    let mut memo = vec![vec![None; k.len() + 1]; p.len() + 1];
+    fn go(p: &[char], k: &[char], i: usize, j: usize, memo: &mut Vec<Vec<Option<bool>>>) -> bool {
+        if let Some(v) = memo[i][j] {
+            return v;
+        }
+        let r = if i == p.len() {
+            j == k.len()
+        } else if p[i] == '*' && i + 1 < p.len() && p[i + 1] == '*' {
+            // `**`: any text
+            (j..=k.len()).any(|m| go(p, k, i + 2, m, memo))
+        } else if p[i] == '*' {
+            // `*`: any text without '/'
+            let mut ok = false;
+            let mut m = j;
+            loop {
+                if go(p, k, i + 1, m, memo) {
+                    ok = true;
+                    break;
+                }
+                if m < k.len() && k[m] != '/' {
+                    m += 1;
+                } else {
+                    break;
+                }
+            }
+            ok
+        } else if p[i] == '?' {
+            j < k.len() && go(p, k, i + 1, j + 1, memo)
+        } else {
+            j < k.len() && k[j] == p[i] && go(p, k, i + 1, j + 1, memo)
+        };
+        memo[i][j] = Some(r);
+        r
+    }
+    go(&p, &k, 0, 0, &mut memo)
+}
+
+/// The fake bucket behind a listing that comes back in a scrambled (reverse, then rotated) order and,
+/// like a real object store, only honours the prefix: the sort in `expand_cloud_glob` must do the ordering.
+#[derive(Clone)]
+struct Scrambled(FakeObjectIO);
+impl ObjectIO for Scrambled {
+    fn put_object(&self, b: &str, k: &str, d: &[u8]) -> CloudResult<()> {
+        self.0.put_object(b, k, d)
+    }
+    fn get_object(&self, b: &str, k: &str) -> CloudResult<Vec<u8>> {
+        self.0.get_object(b, k)
+    }
+    fn delete_object(&self, b: &str, k: &str) -> CloudResult<()> {
+        self.0.delete_object(b, k)
+    }
+    fn list_objects(&self, b: &str, prefix: Option<&str>) -> CloudResult<Vec<ObjectMetadata>> {
+        let mut v = self.0.list_objects(b, prefix)?;
+        v.reverse();
+        if v.len() > 2 {
+            let n = v.len() / 3;
+            v.rotate_left(n);
+        }
+        Ok(v)
+    }
+    fn object_exists(&self, b: &str, k: &str) -> CloudResult<bool> {
+        self.0.object_exists(b, k)
+    }
+    fn get_metadata(&self, b: &str, k: &str) -> CloudResult<ObjectMetadata> {
+        self.0.get_metadata(b, k)
+    }
+    fn copy_object(&self, sb: &str, sk: &str, db: &str, dk: &str) -> CloudResult<()> {
+        self.0.copy_object(sb, sk, db, dk)
+    }
+}
+
+fn empty_bucket() -> Scrambled {
+    let st = FakeObjectIO::new();
+    // make the bucket exist even when it holds no key
+    st.put_object(B, "\u{1}tmp", b"").unwrap();
+    st.delete_object(B, "\u{1}tmp").unwrap();
+    Scrambled(st)
+}
+
+fn mk_store(keys: &[String]) -> Scrambled {
+    let st = empty_bucket();
+    for k in keys {
+        st.put_object(B, k, b"").unwrap();
+    }
+    st
+}
+
+fn keys_answer(r: &Result<Result<Vec<String>, String>, String>, with_count: bool) -> String {
+    match r {
+        Ok(Ok(v)) => {
+            let mut s = String::from("OK");
+            if with_count {
+                s.push_str(&format!(" {}", v.len()));
+            }
+            for k in v {
+                s.push(' ');
+                s.push_str(&xs(k));
+            }
+            s
+        }
+        Ok(Err(kind)) => format!("ERR {kind}"),
+        Err(_) => "PANIC".into(),
+    }
+}
+
+/// the property's statement for one expansion
+fn glob_oracle(cx: &mut Ctx, case: usize, pat: &str, universe: &BTreeSet<String>, real: &Result<Result<Vec<String>, String>, String>, required: bool) -> bool {
+    let expected: Vec<String> = universe.iter().filter(|k| ref_match(pat, k)).cloned().collect();
+    // listing by prefix never hides a match
+    let prefix = verif::extract_prefix(pat);
+    if let Some(p) = &prefix {
+        if let Some(k) = expected.iter().find(|k| !k.starts_with(p.as_str())) {
+            cx.oracle_fail(case, "glob-prefix-hides-match", format!("pattern {pat:?}: listing prefix {p:?} excludes matching key {k:?}"));
+        }
+        if !pat.starts_with(p.as_str()) || p.contains(['*', '?']) {
+            cx.oracle_fail(case, "glob-prefix-not-literal-prefix", format!("pattern {pat:?}: prefix {p:?}"));
+        }
+    }
+    match real {
+        Ok(Ok(got)) => {
+            if required && got.is_empty() {
+                cx.oracle_fail(case, "glob-required-returns-empty", format!("pattern {pat:?}"));
+            }
+            let gset: BTreeSet<&String> = got.iter().collect();
+            let eset: BTreeSet<&String> = expected.iter().collect();
+            if let Some(k) = eset.difference(&gset).next() {
+                let sig = if k.contains('\n') { "glob-misses-matching-key-with-newline" } else { "glob-misses-matching-key" };
+                cx.oracle_fail(case, sig, format!("pattern {pat:?}: key {k:?} matches the documented syntax but is not returned"));
+            } else if let Some(k) = gset.difference(&eset).next() {
+                cx.oracle_fail(case, "glob-returns-nonmatching-key", format!("pattern {pat:?}: key {k:?} returned but does not match the documented syntax"));
+            } else if *got != expected {
+                cx.oracle_fail(case, "glob-not-sorted-or-duplicated", format!("pattern {pat:?}: got {got:?}, expected {expected:?}"));
+            }
+        }
+        Ok(Err(kind)) => {
+            if !(required && expected.is_empty() && kind == "NotFound") {
+                cx.oracle_fail(case, "glob-expansion-error", format!("pattern {pat:?}: {kind} (expected {} keys)", expected.len()));
+            }
+        }
+        Err(m) => cx.oracle_fail(case, "glob-expansion-panics", format!("pattern {pat:?}: {m}")),
+    }
+    !expected.is_empty() && expected.len() < universe.len()
+}
+
+fn one_match(cx: &mut Ctx, pat: &str, keys: &[String], required: bool) {
+    let st = mk_store(keys);
+    let real = guarded(|| {
+        let r = if required { expand_cloud_glob_required(&st, B, pat) } else { expand_cloud_glob(&st, B, pat) };
+        r.map_err(|e| format!("{:?}", e.kind))
+    });
+    let mut req = format!("{} {}", if required { "GLOBREQ" } else { "GLOBMATCH" }, xs(pat));
+    for k in keys {
+        req.push(' ');
+        req.push_str(&xs(k));
+    }
+    let universe: BTreeSet<String> = keys.iter().cloned().collect();
+    let i = cx.case(req, keys_answer(&real, false), false);
+    let nt = glob_oracle(cx, i, pat, &universe, &real, required);
+    cx.nontrivial[i] = nt;
+    cx.count(if nt { "match:some-not-all" } else { "match:none-or-all" });
+    cx.count(&format!("match:keys={}", keys.len().min(8)));
+}
+
+fn one_re(cx: &mut Ctx, pat: &str) {
+    let real = guarded(|| verif::glob_to_regex(pat));
+    let ans = match &real {
+        Ok(s) => xs(s),
+        Err(_) => "PANIC".into(),
+    };
+    let i = cx.case(format!("GLOB2RE {}", xs(pat)), ans, pat.chars().count() >= 2);
+    if real.is_err() {
+        cx.oracle_fail(i, "glob-to-regex-panics", format!("pattern {pat:?}"));
+    }
+    let realp = guarded(|| verif::extract_prefix(pat));
+    let ans = match &realp {
+        Ok(None) => "NONE".to_string(),
+        Ok(Some(p)) => format!("SOME {}", xs(p)),
+        Err(_) => "PANIC".into(),
+    };
+    cx.case(format!("GLOBPREFIX {}", xs(pat)), ans, pat.contains(['*', '?']));
+}
+
+fn all_strings(alpha: &[&str], n: usize) -> Vec<String> {
+    let mut out = vec![String::new()];
+    let mut frontier = vec![String::new()];
+    for _ in 0..n {
+        let mut next = vec![];
+        for s in &frontier {
+            for a in alpha {
+                next.push(format!("{s}{a}"));
+            }
+        }
+        out.extend(next.iter().cloned());
+        frontier = next;
+    }
+    out
+}
+
+// ---------------------------------------------------------------------------------------------
+// JSONL
+// ---------------------------------------------------------------------------------------------
+#[derive(Serialize, Deserialize, Clone, Debug, PartialEq)]
+struct Rec {
+    id: i64,
+    s: String,
+    tags: Vec<String>,
+    o: Option<i64>,
+}
+
+fn rec_tok(r: &Rec) -> String {
+    format!("r{}", hex(serde_json::to_string(r).unwrap().as_bytes()))
+}
+
+fn sniff(bytes: &[u8]) -> &'static str {
+    if bytes.starts_with(&[0x1f, 0x8b]) {
+        "gzip"
+    } else if bytes.starts_with(&[0x28, 0xb5, 0x2f, 0xfd]) {
+        "zstd"
+    } else if bytes.starts_with(b"BZh") {
+        "bzip2"
+    } else if bytes.starts_with(&[0xfd, 0x37, 0x7a, 0x58, 0x5a, 0x00]) {
+        "xz"
+    } else {
+        "plain"
+    }
+}
+
+/// the documented rule: the key's extension (case-insensitive) names the codec
+fn doc_codec(key: &str) -> &'static str {
+    let k = key.to_lowercase();
+    if k.ends_with(".gz") || k.ends_with(".gzip") {
+        "gzip"
+    } else if k.ends_with(".zst") || k.ends_with(".zstd") {
+        "zstd"
+    } else if k.ends_with(".bz2") || k.ends_with(".bzip2") {
+        "bzip2"
+    } else if k.ends_with(".xz") {
+        "xz"
+    } else {
+        "plain"
+    }
+}
+
+fn one_jsonl(cx: &mut Ctx, key: &str, recs: &[Rec]) {
+    let st = FakeObjectIO::new();
+    let w = guarded(|| write_cloud_jsonl_vec(&st, B, key, recs).map_err(|e| format!("{:?}", e.kind)));
+    let stored = st.get_object(B, key).ok();
+    let wc = match (&w, &stored) {
+        (Ok(Ok(_)), Some(b)) => sniff(b).to_string(),
+        (Ok(Err(k)), _) => format!("ERR-{k}"),
+        _ => "PANIC".into(),
+    };
+    let r = guarded(|| read_cloud_jsonl_vec::<Rec, _>(&st, B, key).map_err(|e| format!("{:?}", e.kind)));
+    let mut ans = format!("W:{wc} ");
+    match &r {
+        Ok(Ok(v)) => {
+            ans.push_str("R:OK");
+            for x in v {
+                ans.push(' ');
+                ans.push_str(&rec_tok(x));
+            }
+        }
+        Ok(Err(_)) => ans.push_str("R:ERR"),
+        Err(_) => ans.push_str("R:PANIC"),
+    }
+    let mut req = format!("CLOUDJSONL {}", xs(key));
+    for x in recs {
+        req.push(' ');
+        req.push_str(&rec_tok(x));
+    }
+    let i = cx.case(req, ans, !recs.is_empty() && doc_codec(key) != "plain");
+    cx.count(&format!("jsonl:codec={wc}"));
+    cx.count(&format!("jsonl:recs={}", recs.len().min(4)));
+    if wc != doc_codec(key) {
+        cx.oracle_fail(i, "cloud-jsonl-writer-ignores-extension", format!("key {key:?}: stored object is {wc}, the extension names {}", doc_codec(key)));
+    }
+    match &r {
+        Ok(Ok(v)) if v.as_slice() == recs => {}
+        other => {
+            let sig = "cloud-jsonl-roundtrip-fails";
+            cx.oracle_fail(i, sig, format!("key {key:?}, {} records written ({wc}); read back: {}", recs.len(), match other {
+                Ok(Ok(v)) => format!("{} different records", v.len()),
+                Ok(Err(k)) => format!("Err({k})"),
+                Err(m) => format!("panic {m}"),
+            }));
+        }
+    }
+}
+
+fn one_read(cx: &mut Ctx, pat: &str, objs: &[(String, Vec<Rec>)]) {
+    let st = empty_bucket();
+    let mut req = format!("GLOBREAD {}", xs(pat));
+    let mut last: std::collections::BTreeMap<String, Vec<Rec>> = Default::default();
+    for (k, rs) in objs {
+        let _ = guarded(|| write_cloud_jsonl_vec(&st, B, k, rs));
+        last.insert(k.clone(), rs.clone());
+        req.push_str(&format!(" {}={}", xs(k), rs.iter().map(rec_tok).collect::<Vec<_>>().join(",")));
+    }
+    let r = guarded(|| read_cloud_jsonl_glob::<Rec, _>(&st, B, pat).map_err(|e| format!("{:?}", e.kind)));
+    let ans = match &r {
+        Ok(Ok(v)) => {
+            let mut s = String::from("OK");
+            for x in v {
+                s.push(' ');
+                s.push_str(&rec_tok(x));
+            }
+            s
+        }
+        Ok(Err(k)) => format!("ERR {k}"),
+        Err(_) => "PANIC".into(),
+    };
+    let expected: Vec<Rec> = last.iter().filter(|(k, _)| ref_match(pat, k)).flat_map(|(_, v)| v.clone()).collect();
+    let nmatch = last.keys().filter(|k| ref_match(pat, k)).count();
+    let i = cx.case(req, ans, nmatch >= 2);
+    cx.count(&format!("read:matching-objects={}", nmatch.min(4)));
+    match &r {
+        Ok(Ok(v)) if *v == expected => {}
+        Ok(Ok(v)) => cx.oracle_fail(i, "glob-read-not-sorted-concatenation", format!("pattern {pat:?}: got {} records, expected {}", v.len(), expected.len())),
+        Ok(Err(k)) => cx.oracle_fail(i, "glob-read-error", format!("pattern {pat:?}: {k}")),
+        Err(m) => cx.oracle_fail(i, "glob-read-panics", format!("pattern {pat:?}: {m}")),
+    }
+}
+
+// ---------------------------------------------------------------------------------------------
+// generators
+// ---------------------------------------------------------------------------------------------
+const LIT: &[&str] = &[
+    "/", "/", ".", ".", "a", "a", "b", "c", "d", "0", "1", "-", "_", "=", "+", "(", ")", "[", "]", "{", "}", "^", "$", "|", "\\", "#", "~", "&",
+    " ", ",", ":", "!", "<", ">", "é", "日", "\n", "\r", "\t", "A", "𝄞", "\u{e000}", "\u{7f}",
+];
+const WILD: &[&str] = &["*", "*", "**", "?"];
+const SEG: &[&str] = &["a", "b", "ab", "", ".", "x.y", "2024-01", "data", "+", "(", "é", "a\nb", "\n"];
+
+/// at most 5 star tokens per random pattern: the Lean model's matcher is the plain backtracking definition of
+/// the language (exponential in the number of stars on a failing key), the real engine is linear
+fn gen_pattern(cx: &mut Ctx, max: usize) -> Vec<String> {
+    let n = cx.rng.below(max + 1);
+    let mut stars = 0;
+    (0..n)
+        .map(|_| {
+            if cx.rng.chance(3, 10) {
+                let w = cx.rng.pick(WILD).to_string();
+                if w != "?" {
+                    stars += 1;
+                }
+                if stars > 5 { "?".to_string() } else { w }
+            } else {
+                cx.rng.pick(LIT).to_string()
+            }
+        })
+        .collect()
+}
+
+fn instantiate(cx: &mut Ctx, toks: &[String]) -> String {
+    let mut s = String::new();
+    for t in toks {
+        match t.as_str() {
+            "*" => {
+                for _ in 0..cx.rng.below(3) {
+                    let c = *cx.rng.pick(LIT);
+                    if c != "/" {
+                        s.push_str(c);
+                    }
+                }
+            }
+            "**" => {
+                for _ in 0..cx.rng.below(4) {
+                    s.push_str(*cx.rng.pick(LIT));
+                }
+            }
+            "?" => s.push_str(*cx.rng.pick(LIT)),
+            c => s.push_str(c),
+        }
+    }
+    s
+}
+
+fn mutate(cx: &mut Ctx, s: &str) -> String {
+    let mut cs: Vec<char> = s.chars().collect();
+    match cx.rng.below(5) {
+        0 => {
+            if !cs.is_empty() {
+                let i = cx.rng.below(cs.len());
+                cs.remove(i);
+            }
+        }
+        1 => {
+            let i = cx.rng.below(cs.len() + 1);
+            let c = cx.rng.pick(LIT).chars().next().unwrap();
+            cs.insert(i, c);
+        }
+        2 => {
+            if !cs.is_empty() {
+                let i = cx.rng.below(cs.len());
+                cs[i] = cx.rng.pick(LIT).chars().next().unwrap();
+            }
+        }
+        3 => cs.push(cx.rng.pick(LIT).chars().next().unwrap()),
+        _ => cs.insert(0, cx.rng.pick(LIT).chars().next().unwrap()),
+    }
+    cs.into_iter().collect()
+}
+
+fn gen_keys(cx: &mut Ctx, toks: &[String]) -> Vec<String> {
+    let n = cx.rng.below(13);
+    let mut keys = vec![];
+    for _ in 0..n {
+        let k = match cx.rng.below(10) {
+            0..=4 => instantiate(cx, toks),
+            5..=7 => {
+                let base = instantiate(cx, toks);
+                mutate(cx, &base)
+            }
+            8 => toks.concat(), // the pattern text itself as a key
+            _ => {
+                let m = cx.rng.below(6);
+                (0..m).map(|_| *cx.rng.pick(LIT)).collect::<String>()
+            }
+        };
+        keys.push(k);
+    }
+    keys
+}
+
+const STR_POOL: &[&str] = &[
+    "", " ", "x", "line1\nline2", "\r", "a\r\n", "BZh91AY&SY", "\u{1f}\u{8b}", "日本語", "\"q\"", "\\", "\u{85}", "  lead", "trail  ", "{}", "[1,2]", "\u{2028}", "\u{0}", "é",
+];
+
+fn gen_rec(cx: &mut Ctx) -> Rec {
+    let id = match cx.rng.below(4) {
+        0 => 0,
+        1 => i64::MIN,
+        2 => i64::MAX,
+        _ => cx.rng.range(-1000, 1000),
+    };
+    let nt = cx.rng.below(3);
+    Rec {
+        id,
+        s: cx.rng.pick(STR_POOL).to_string(),
+        tags: (0..nt).map(|_| cx.rng.pick(STR_POOL).to_string()).collect(),
+        o: if cx.rng.chance(1, 2) { Some(cx.rng.range(-5, 5)) } else { None },
+    }
+}
+
+fn gen_recs(cx: &mut Ctx) -> Vec<Rec> {
+    let n = match cx.rng.below(6) {
+        0 => 0,
+        1 => 1,
+        2 => 2,
+        3 => 3,
+        4 => 5,
+        _ => cx.rng.below(40),
+    };
+    (0..n).map(|_| gen_rec(cx)).collect()
+}
+
+const STEMS: &[&str] = &[
+    "data", "dir/data", "dir/", "", "dir/.", "a.b", "dir/..", "x.gz/file", "x.gz/", "x.gz/.", "d.d/e", "K", "İ", "dir/sub/.hidden", "日本/データ", "a b", "\n", "out.jsonl", "..", ".",
+];
+const EXTS: &[&str] = &[
+    "", ".gz", ".GZ", ".Gz", ".gzip", ".GZIP", ".zst", ".zstd", ".ZsT", ".bz2", ".BZ2", ".bzip2", ".xz", ".XZ", ".jsonl", ".jsonl.gz", ".tar.gz", ".gz.bak", ".gz.", "gz", ".g z", ".gz ",
+    ".zstd.gz", ".xz/", ".gz/x", "..gz", ".gzİp", ".\u{212a}z", ".zs",
+];
+
+pub fn tables(out: &mut String) {
+    // the escape set of the running `glob_to_regex`, probed on every ASCII character
+    let head_tail = verif::glob_to_regex("");
+    let head = head_tail.strip_suffix('$').unwrap_or(&head_tail).to_string();
+    let mut esc: Vec<u32> = vec![];
+    let mut plain: Vec<u32> = vec![];
+    let mut odd: Vec<u32> = vec![];
+    for n in 0u32..128 {
+        let c = char::from_u32(n).unwrap();
+        if c == '*' || c == '?' {
+            continue;
+        }
+        let r = verif::glob_to_regex(&c.to_string());
+        let body = r.strip_prefix(head.as_str()).and_then(|x| x.strip_suffix('$'));
+        match body {
+            Some(b) if b == format!("\\{c}") => esc.push(n),
+            Some(b) if b == c.to_string() => plain.push(n),
+            _ => odd.push(n),
+        }
+    }
+    let list = |v: &[u32]| v.iter().map(|n| format!("Char.ofNat {n}")).collect::<Vec<_>>().join(", ");
+    out.push_str("/-- C19: ASCII characters that the running `glob_to_regex` emits as `\\c` (probed one by one) -/\n");
+    out.push_str(&format!("def escapeSet : List Char := [{}]\n", list(&esc)));
+    out.push_str("/-- C19: ASCII characters (other than `*`, `?`) whose emission is neither `c` nor `\\c` -/\n");
+    out.push_str(&format!("def escapeOdd : List Char := [{}]\n", list(&odd)));
+    out.push_str("/-- C19: what `glob_to_regex` puts before the translated pattern -/\n");
+    out.push_str(&format!("def regexHead : List Char := [{}]\n\n", list(&head.chars().map(|c| c as u32).collect::<Vec<_>>())));
+    let _ = plain;
+}
+
+pub fn run(cx: &mut Ctx) {
+    // ---- (1) corpus: design witnesses and minimised past failures -------------------------------
+    let r1 = Rec { id: 1, s: "x".into(), tags: vec![], o: None };
+    one_jsonl(cx, "dir/.gz", &[r1.clone()]); // DESIGN §8 #16: written plain, read through gzip
+    one_jsonl(cx, ".zst", &[r1.clone(), r1.clone()]);
+    one_jsonl(cx, "dir/.gz", &[]);
+    one_jsonl(cx, "x.gz/", &[r1.clone()]);
+    one_jsonl(cx, "data.jsonl.GZ", &[r1.clone()]);
+    one_match(cx, "a?c", &["a\nc".into(), "abc".into(), "a/c".into()], false); // `.` does not match \n without (?s)
+    one_match(cx, "**", &["a\nb".into(), "x".into()], false);
+    one_match(cx, "a/**/b", &["a/b".into(), "a//b".into(), "a/x/b".into(), "a/x/y/b".into()], false);
+    one_match(cx, "logs/2024-01-*/data.jsonl", &["logs/2024-01-01/data.jsonl".into(), "logs/2024-01-02/x/data.jsonl".into(), "logs/2024-02-01/data.jsonl".into()], false);
+    one_match(cx, "a+(b)[c]{d}^$|\\.#-~&", &["a+(b)[c]{d}^$|\\.#-~&".into(), "aa(b)[c]{d}^$|\\.#-~&".into()], false);
+    one_match(cx, "*", &[], true);
+    // long patterns (beyond the 1024-byte key limit of real stores; the regex crate's compiled-size limit,
+    // not modelled, only rejects patterns with several thousand wildcards)
+    one_match(cx, &"?".repeat(300), &["x".repeat(300), "x".repeat(299), "/".repeat(300), "x".repeat(301)], false);
+    one_match(cx, &format!("{}*{}", "ab".repeat(150), "./".repeat(100)), &[format!("{}{}", "ab".repeat(150), "./".repeat(100)), format!("{}zz{}", "ab".repeat(150), "./".repeat(100)), format!("{}z/z{}", "ab".repeat(150), "./".repeat(100))], false);
+    one_match(cx, &"**/".repeat(6), &["x/".repeat(6), "x/".repeat(5), "xy/z/".repeat(6), "/".repeat(6)], false);
+    for p in ["", "*", "**", "***", "****", "?", "a*", "*a", "a**b", "a.b", "[a]", "a\\b", "^$", "x{1}", "a|b", "(?s)", "\n", "é*日"] {
+        one_re(cx, p);
+    }
+
+    // ---- (2) small-scope exhaustive ----------------------------------------------------------------
+    let ptoks: &[&str] = &["*", "**", "?", "/", ".", "a"];
+    let pn = cx.budget(4, 5);
+    let kalpha: &[&str] = &["/", ".", "a", "b", "\n", "+"];
+    let kn = 4;
+    let pats = all_strings(ptoks, pn);
+    let pats: Vec<String> = pats.into_iter().collect::<BTreeSet<_>>().into_iter().collect();
+    let keys = all_strings(kalpha, kn);
+    let universe: BTreeSet<String> = keys.iter().cloned().collect();
+    let st = mk_store(&keys);
+    let alpha_s: String = kalpha.concat();
+    for p in &pats {
+        let real = guarded(|| expand_cloud_glob(&st, B, p).map_err(|e| format!("{:?}", e.kind)));
+        let i = cx.case(format!("GLOBALL {} {} {kn}", xs(p), xs(&alpha_s)), keys_answer(&real, true), false);
+        let nt = glob_oracle(cx, i, p, &universe, &real, false);
+        cx.nontrivial[i] = nt;
+        cx.count(if nt { "all:some-not-all" } else { "all:none-or-all" });
+        one_re(cx, p);
+    }
+    cx.exhaustive_blocks.push(format!(
+        "glob: all {} distinct patterns of <= {pn} tokens over {{*,**,?,/,.,a}} x all {} keys of length <= {kn} over {{/,.,a,b,\\n,+}} (one store holding every key; {} pattern-key pairs)",
+        pats.len(), keys.len(), pats.len() * keys.len()
+    ));
+    // every single ASCII character as a pattern against every single ASCII character as a key
+    let ascii: Vec<String> = (0u32..128).map(|n| char::from_u32(n).unwrap().to_string()).collect();
+    for p in &ascii {
+        one_re(cx, p);
+        one_match(cx, p, &ascii, false);
+        one_match(cx, &format!("a{p}b"), &ascii.iter().map(|k| format!("a{k}b")).collect::<Vec<_>>(), false);
+    }
+    cx.exhaustive_blocks.push("glob: each of the 128 ASCII characters as a pattern (alone and between letters) x each of the 128 ASCII characters as a key".into());
+    // codec choice: stems x extensions x {0,1,3 records}
+    let r2 = Rec { id: -7, s: "line1\nline2".into(), tags: vec!["BZh91AY&SY".into(), "".into()], o: Some(3) };
+    let r3 = Rec { id: i64::MAX, s: "日本語".into(), tags: vec!["\r".into()], o: None };
+    for stem in STEMS {
+        for ext in EXTS {
+            let key = format!("{stem}{ext}");
+            one_jsonl(cx, &key, &[r1.clone(), r2.clone(), r3.clone()]);
+            if cx.tier != crate::ctx::Tier::Quick || ext.len() <= 4 {
+                one_jsonl(cx, &key, &[]);
+                one_jsonl(cx, &key, &[r2.clone()]);
+            }
+        }
+    }
+    cx.exhaustive_blocks.push(format!("jsonl: {} key stems x {} extensions (case variants, dot-files, directories named like archives) x record vectors of 0/1/3", STEMS.len(), EXTS.len()));
+
+    // ---- (3) random ---------------------------------------------------------------------------------
+    let rounds = cx.budget(4000, 40000);
+    for _ in 0..rounds {
+        let toks = gen_pattern(cx, 12);
+        let pat = toks.concat();
+        one_re(cx, &pat);
+        let keys = gen_keys(cx, &toks);
+        let required = cx.rng.chance(1, 8);
+        one_match(cx, &pat, &keys, required);
+    }
+    // segment-structured patterns and keys (shared prefixes, wildcard at position 0, `**` in the middle)
+    let rounds = cx.budget(2500, 25000);
+    for _ in 0..rounds {
+        let nseg = 1 + cx.rng.below(4);
+        let mut toks: Vec<String> = vec![];
+        for i in 0..nseg {
+            if i > 0 {
+                toks.push("/".into());
+            }
+            match cx.rng.below(6) {
+                0 => toks.push("*".into()),
+                1 => toks.push("**".into()),
+                2 => {
+                    toks.push((*cx.rng.pick(SEG)).to_string());
+                    toks.push("*".into());
+                }
+                3 => {
+                    toks.push("*".into());
+                    toks.push((*cx.rng.pick(SEG)).to_string());
+                }
+                4 => {
+                    toks.push("?".into());
+                    toks.push((*cx.rng.pick(SEG)).to_string());
+                }
+                _ => toks.push((*cx.rng.pick(SEG)).to_string()),
+            }
+        }
+        let pat = toks.concat();
+        let nk = cx.rng.below(10);
+        let mut keys = vec![];
+        for _ in 0..nk {
+            let ns = 1 + cx.rng.below(4);
+            let k = (0..ns).map(|_| (*cx.rng.pick(SEG)).to_string()).collect::<Vec<_>>().join("/");
+            keys.push(k);
+        }
+        for _ in 0..cx.rng.below(4) {
+            // instantiate token by token; multi-character literal tokens are copied
+            keys.push(instantiate(cx, &toks));
+        }
+        one_match(cx, &pat, &keys, false);
+        cx.count("match:segment-structured");
+    }
+    let rounds = cx.budget(600, 6000);
+    for _ in 0..rounds {
+        let stem = if cx.rng.chance(1, 2) {
+            (*cx.rng.pick(STEMS)).to_string()
+        } else {
+            let m = cx.rng.below(8);
+            (0..m).map(|_| *cx.rng.pick(LIT)).collect::<String>()
+        };
+        let ext = *cx.rng.pick(EXTS);
+        let recs = gen_recs(cx);
+        one_jsonl(cx, &format!("{stem}{ext}"), &recs);
+    }
+    let rounds = cx.budget(600, 6000);
+    for _ in 0..rounds {
+        let no = 1 + cx.rng.below(7);
+        let mut objs = vec![];
+        for _ in 0..no {
+            let dir = *cx.rng.pick(&["", "d/", "d/e/", "logs/2024-01-", "a.b/"]);
+            let name = *cx.rng.pick(&["x", "y", "data", "part-0", "part-1", ".h", "", "é"]);
+            let ext = *cx.rng.pick(&["", ".jsonl", ".jsonl.gz", ".GZ", ".zst", ".bz2", ".xz", ".gz"]);
+            let n = cx.rng.below(4);
+            objs.push((format!("{dir}{name}{ext}"), (0..n).map(|_| gen_rec(cx)).collect::<Vec<_>>()));
+        }
+        let pat = match cx.rng.below(8) {
+            0 | 6 => "**".to_string(),
+            7 => "**.*".to_string(),
+            1 => "d/*".to_string(),
+            2 => "*".to_string(),
+            3 => "**/*.g?".to_string(),
+            4 => "d/**".to_string(),
+            _ => {
+                if objs.is_empty() { "?".to_string() } else {
+                    let k = objs[cx.rng.below(objs.len())].0.clone();
+                    let cs: Vec<char> = k.chars().collect();
+                    if cs.is_empty() { "*".to_string() } else {
+                        let i = cx.rng.below(cs.len());
+                        let mut p: String = cs[..i].iter().collect();
+                        p.push_str(*cx.rng.pick(WILD));
+                        p
+                    }
+                }
+            }
+        };
+        one_read(cx, &pat, &objs);
+    }
+}
